@@ -111,8 +111,8 @@ def report(ctx, verdicts, vecs_by_key, origin):
     for key, ks in groups.items():
         first = verdicts[ks[0]]
         vec = vecs_by_key[ks[0]]
-        what = "%s: %d case(s), e.g. ring=%s dc=%s rack=%s %s %s -> %s" % (
-            origin, len(ks), vec["ring"], vec["dc"], vec["rack"], vec["strat"],
+        what = "%s: %d case(s), e.g. ring=%s dc=%s rack=%s down=%s %s %s -> %s" % (
+            origin, len(ks), vec["ring"], vec["dc"], vec["rack"], vec.get("down", []), vec["strat"],
             dict(zip(vec["rfdc"], vec["rfn"])),
             ("panic: " + vec["pmsg"]) if vec["pclass"] != "none" else
             "token %s: driver %s, Cassandra %s" % (first["sample"]["t"], first["sample"]["got"], first["sample"]["ref"]))
@@ -133,7 +133,7 @@ def replay(ctx):
         raise vf.Inconclusive("no vectors in %s" % ctx.replay)
     cases = [dict(id=i + 1, ring=v["ring"], dc=v["dc"], rack=v["rack"], strat=v["strat"], rfdc=v["rfdc"], rfn=v["rfn"],
                   tokens=v["tokens"], look=[[e["t"]] for e in v["look"]] or [[t] for t in v["tokens"]], form=v["form"],
-                  parts=[v["part"]]) for i, v in enumerate(vecs)]
+                  parts=[v["part"]], down=v.get("down", [])) for i, v in enumerate(vecs)]
     cp, rp = os.path.join(ctx.tmp, "cases.ndjson"), os.path.join(ctx.tmp, "results.ndjson")
     vf.write_ndjson(cp, cases)
     binary = vf.build_gotest(ctx, ".", harness_dirs("c10"))
@@ -163,6 +163,8 @@ def run(ctx):
         # input variations the reference is indifferent to: option value type, partitioner
         c["form"] = "str" if (i + seed) % 2 else "int"
         c["parts"] = PARTS if len(c["ring"]) <= 3 else [PARTS[(i + seed) % 3]]
+        # ... and liveness: in every third case one node is DOWN while the ring and the replica map are built
+        c["down"] = [1 + ((i // 3 + seed) % len(c["dc"]))] if (i + seed) % 3 == 0 else []
     cp = os.path.join(ctx.tmp, "cases.ndjson")
     vf.write_ndjson(cp, [{k: v for k, v in c.items() if k != "exp"} for c in cases])
     ctx.log("generated %d cases (%d rings x layouts)" % (len(cases), nlayouts))
